@@ -50,7 +50,8 @@ fn fit_case<T: Sc>(rng: &mut Rng, case: u64, out: &mut CaseOut) {
     let (mspec, alpha_true, fam) = family(rng);
     let n = mspec.n();
     let m = mspec.m();
-    let s = *rng.pick(&[1usize, 1, 2, 5]);
+    // one case in forty is a global fit over many right-hand sides
+    let s = if case % 40 == 17 { rng.int(56, 100) } else { *rng.pick(&[1usize, 1, 2, 5]) };
     let noiseless = rng.chance(0.5);
     // coefficients |c_j| in [0.5,5]
     let c_true = Mat::from_fn(m, s, |_, _| rng.sign() * rng.range(0.5, 5.0));
